@@ -18,6 +18,7 @@ func init() {
 			"NOT decided (and not claimed): non-emptiness, exact cover, balance within one — these are arithmetic facts about ((n-1)/c)+1 and c-(m·c-n) for all n, c, which need symbolic algebra or enumeration (other technique families). A change that only alters those formulas is not detected by this check.",
 		Assumptions: []string{"members agree on the group size (C10)"},
 		Rules: []RuleDef{
+			{ID: "C09.R23", Text: "the leader numbers exactly the members that answer now: one heart-beat round evaluated whole — every follower is pinged once and removed ⇔ its ping failed in this round; a leader that answers is left alone, a silent one is re-contacted and forgotten only when that fails too (same rule as C10.R21)", Run: leaderHeartbeatRound},
 			{ID: "C09.R1", Text: "identity sequence built ascending; every chunk is param[start:end] with start(i+1)=end(i), start(0)=0 — contiguous ascending sweep, no copy/reorder", Run: c09r1},
 			{ID: "C09.R2", Text: "member's set = ChunkSlice(all, info.TotalMembers)[info.MemberNumber-1], info from one GetInfo() call, returned as is", Run: c09r2},
 			{ID: "C09.R4", Text: "the ownership test and the close loop agree with the assigned chunk: In ⇔ Start ≤ vbID ≤ End (a one-vBucket range is not empty), range = [first, last] of the chunk, streams closed for Start..End inclusive (same rules as C04.R2, C13.R8)", Run: func(c *Ctx, id string) { c04r2(c, id); closeAllRange(c, id) }},
